@@ -44,6 +44,8 @@ def default_programs(ctx, extra=()):
     progs = [G.dec(l) for l in C.load_corpus("sema")]
     progs += DEGENERATE + [a + "\n" + b for a in DEGENERATE[:20] for b in DEGENERATE[:20]]
     progs += list(extra)
+    from . import gen_scale as GS
+    progs += GS.scale_programs(q)          # depth, repetition, name coincidences, directive bodies (vf/gen_scale.py)
     progs += GP.gen_programs(ctx.seed, 5000 if q else 80000)
     return progs
 
